@@ -100,9 +100,10 @@ def run(ctx):
             dic[w] = dic[w] + [rng.choice([c for c in inv if c not in cats])]
         def one_call(cats, dic, bad, note=None):
             nsent = rng.randint(1, 3)
+            long_one = (k % 40 == 17)      # a very long sentence (the operation has no length limit of its own)
             doc, scores = [], []
-            for _ in range(nsent):
-                n = rng.randint(1, 5)
+            for si_ in range(nsent):
+                n = rng.randint(1, 5) if not (long_one and si_ == 0) else rng.choice([251, 260, 300])
                 doc.append([Token.of_word(rng.choice(vocab)) for _ in range(n)])
                 scores.append(ScoringResult(numpy.array([[rng.randint(-50, 0) for _ in range(T)] for _ in range(n)], dtype=numpy.float32),
                                             numpy.array([[rng.randint(-50, 0) for _ in range(n + 1)] for _ in range(n)], dtype=numpy.float32)))
